@@ -75,6 +75,13 @@ def send (d : σ → σ) (ls : List (Lsn ι σ)) (sched : List (Act ι σ)) : Li
   let s := finish d (sched.foldl (act d) { ls := ls, todo := ls.map (·.id), needGc := false })
   if s.needGc then collect s.ls else s.ls
 
+/-- NOT the code — a tempting shortcut kept here only to show that the theorems tell it apart (see
+`PropsChurn.lean`): `collect` swaps in the listeners the delivery loop found active instead of
+re-reading the list under the lock. -/
+def sendSwap (d : σ → σ) (ls : List (Lsn ι σ)) (sched : List (Act ι σ)) : List (Lsn ι σ) :=
+  let s := finish d (sched.foldl (act d) { ls := ls, todo := ls.map (·.id), needGc := false })
+  if s.needGc then s.ls.filter (fun l => l.alive && ls.any (fun l0 => decide (l0.id = l.id))) else s.ls
+
 /-- churn while no `Send` is in flight -/
 def idle (ls : List (Lsn ι σ)) : Act ι σ → List (Lsn ι σ)
   | .visit => ls
